@@ -948,6 +948,11 @@ func checkC19(ctx *Ctx) *Result {
 			l0(ctx, r, "R4.1", val.Lists[f])
 		}
 		builderRule(ctx, r, "R4.1")
+		// ... the scalar validators and the pattern predicates miss no violation
+		r.rule("R4.3", "integer validators: exact accepted sets (an out-of-range value yields its error)", 2)
+		intRule(ctx, r, "R4.3")
+		r.rule("R4.6", "pattern predicates: IsDeemedInsecure and HostIsEffectiveTLD compute the documented truth tables", 2)
+		patternPredicates(ctx, r, "R4.6")
 		// ... and constructed exactly where the documentation names a violation
 		r.share(checkC05(ctx), map[string]string{"R5.1": "decision-table equality: on every per-element path of every validator the errors constructed are the documented ones, no more (a spurious second error) and no fewer (a name that is skipped)"}, nil)
 	} else {
